@@ -30,6 +30,19 @@ def rule_r1(facts, col):
         if not any(body.term(bb)["k"] == "assert" and body.term(bb)["msg"].get("op") == "Sub" for bb in body.reachable(0)):
             if body.name == "again":
                 col.ok("C16.R1", "%s:nosub" % body.q, body.where(), "no checked subtraction (saturating/none)")
+        # a subtraction spelled with a wrapping / unchecked method does not panic - it silently turns 0 into u64::MAX repetitions
+        for bb, t in body.calls():
+            nm = t["f"].get("name") or ""
+            if nm not in ("wrapping_sub", "unchecked_sub", "overflowing_sub") or len(t["args"]) < 2:
+                continue
+            key = "%s:%s" % (body.q, nm)
+            a, b = body.operand_expr(t["args"][0]), body.operand_expr(t["args"][1])
+            if known_ge(body, bb, a, b):
+                col.ok("C16.R1", key, body.where(bb), "guarded wrapping subtraction")
+            else:
+                col.bad("C16.R1", key, body.where(bb),
+                        "the repeat counter is decremented with %s() on a path that does not establish counter >= amount: at 0 it wraps to "
+                        "u64::MAX and a source that was done repeats (practically) forever" % nm, {})
 
 
 def _short(e):
@@ -685,6 +698,143 @@ def rule_r11(facts, col, rule_id="C16.R11"):
                         "verdict, or a rewind that burns a repetition)" % show(peel(n, through_try=False))[:90], {})
 
 
+def _project(facts, val0, comps):
+    for comp in comps:
+        pv = peel(val0, through_try=False)
+        if pv.k == "agg" and pv.args and comp.isdigit() and int(comp) < len(pv.args):
+            val0 = pv.args[int(comp)]
+        elif pv.k == "agg" and pv.args and pv.adt in facts.adts and comp in [f_["name"] for f_ in facts.adts[pv.adt]["variants"][0]["fields"]]:
+            names_ = [f_["name"] for f_ in facts.adts[pv.adt]["variants"][0]["fields"]]
+            val0 = pv.args[names_.index(comp)] if names_.index(comp) < len(pv.args) else E("unknown")
+        else:
+            val0 = E("field", a=pv, name=comp, idx=int(comp) if comp.isdigit() else None)
+    return val0
+
+
+def rule_r12(facts, col, rule_id="C16.R12"):
+    """a new repetition starts from the constructor's state: where work() (or a helper of the block), after Repeat::again(),
+    re-initialises a field of self with a constant or with a value stored in another field (`self.left = self.range.1`,
+    `self.pos = 0`), every constructor initialises that field with the same value (sibling agreement, through the stored
+    fields).  Otherwise the first repetition and the later ones emit different amounts of data."""
+    from ..mir import self_field_path
+    rb = repeat_blocks(facts)
+    n = 0
+    for wbody in facts.impl_bodies(BLOCK_TRAIT, "work"):
+        adt = wbody.self_adt
+        if adt not in rb:
+            continue
+        a = facts.adts.get(adt)
+        fields = [f["name"] for f in a["variants"][0]["fields"]]
+        helpers = [wbody] + [hb for hb in adt_helpers(facts, wbody) if hb.kind != "closure"]
+        for body in helpers:
+            agains = [bb for bb, t in body.calls_to(AGAIN)]
+            if not agains:
+                continue
+            for bb in sorted(body.reachable(0)):
+                if not any(body.dominates(ab, bb) and ab != bb for ab in agains):
+                    continue
+                for st in body.blocks[bb]["stmts"]:
+                    if st["k"] != "assign" or st["dst"]["l"] != 1:
+                        continue
+                    pj = st["dst"]["p"]
+                    if len(pj) != 2 or pj[0] != "*" or not isinstance(pj[1], dict) or pj[1].get("n") not in fields:
+                        continue
+                    fld = pj[1]["n"]
+                    rhs = peel(body.rvalue_expr(st["rv"]), through_try=False)
+                    fp = self_field_path(rhs)
+                    if rhs.k != "const" and not fp:
+                        continue
+                    key = "%s:restart(self.%s)" % (wbody.q, fld)
+                    probs = []
+                    ncons = 0
+                    for cb in facts.bodies:
+                        if cb.kind == "closure" or cb in helpers:
+                            continue
+                        for b2 in sorted(cb.reachable(0)):
+                            for st2 in cb.blocks[b2]["stmts"]:
+                                if st2["k"] != "assign" or st2["rv"]["k"] != "agg" or st2["rv"].get("adt") != adt:
+                                    continue
+                                ops = dict(zip(st2["rv"].get("fields") or fields, st2["rv"]["ops"]))
+                                if fld not in ops:
+                                    continue
+                                got = peel(cb.operand_expr(ops[fld]), through_try=False)
+                                if rhs.k == "const":
+                                    want = rhs
+                                elif fp[0] in ops:
+                                    want = peel(_project(facts, cb.operand_expr(ops[fp[0]]), fp[1:]), through_try=False)
+                                else:
+                                    continue
+                                ncons += 1
+                                if want.k == "field" and want.a is not None and peel(want.a, through_try=False).k == "agg" and want.idx is not None:
+                                    inner = peel(want.a, through_try=False)
+                                    if inner.args and want.idx < len(inner.args):
+                                        want = peel(inner.args[want.idx], through_try=False)
+                                same = (got.k == "const" and want.k == "const" and got.v == want.v) or same_expr(got, want) or show(got) == show(want)
+                                if not same:
+                                    probs.append("%s initialises self.%s with %s, the restart sets it to %s (= %s there)" % (
+                                        cb.name, fld, show(got)[:40], show(rhs)[:40], show(want)[:40]))
+                    if probs:
+                        col.bad(rule_id, key, "%s:%d" % (st["sp"]["f"], st["sp"]["l"]),
+                                "the value a new repetition starts with differs from the constructor's: %s - the first pass over the data "
+                                "and the later ones cover different ranges" % "; ".join(sorted(set(probs))), {})
+                        n += 1
+                    elif ncons:
+                        col.ok(rule_id, key, "%s:%d" % (st["sp"]["f"], st["sp"]["l"]), "restart value agrees with %d constructor aggregate(s)" % ncons)
+                        n += 1
+    if n == 0:
+        col.ok(rule_id, "no-restart-state", "src/lib.rs", "no source re-initialises a field from stored state after Repeat::again()")
+
+
+def rule_r13(facts, col, rule_id="C16.R13"):
+    """EOF is reported on the 'nothing left' side: where the nearest controlling test of an EOF verdict of a finite source is
+    an end-of-data test (Repeat::done(), Repeat::again(), `x == 0` / `x != 0` on a count, is_empty() on the data), the
+    verdict sits on the side of that test that says the data has ended (done() true, again() false, count == 0, empty) -
+    not on the side that says there is more."""
+    from . import c09
+    rb = repeat_blocks(facts)
+    for body in facts.impl_bodies(BLOCK_TRAIT, "work"):
+        if body.self_adt not in rb:
+            continue
+        k = 0
+        for bb, verdict, e in effects.verdict_defs(body):
+            if verdict != "EOF":
+                continue
+            key = "%s:EOF#%d" % (body.q, k)
+            k += 1
+            f = c09.nearest_fact(body, bb)
+            if f is None:
+                col.silent(rule_id, key, body.where(bb), "unconditional EOF")
+                continue
+            rel = f[0]
+            side = None
+            if rel in ("Bool", "BoolVal") and f[1] is not None:
+                nm = (getattr(f[1], "q", None) or "").split("::")[-1]
+                rq = getattr(f[1], "q", None)
+                if rq == DONE or nm == "done":
+                    side = "end" if f[2] is True else "more"
+                elif rq == AGAIN or nm == "again":
+                    side = "end" if f[2] is False else "more"
+                elif nm == "is_empty":
+                    side = "end" if f[2] is True else "more"
+            elif rel == "IntEq" and f[2] == 0:
+                side = "end"
+            elif rel == "IntNe" and f[2] == 0:
+                side = "more"
+            elif rel in ("Eq", "Ne"):
+                zl, zr = peel(f[1], through_try=False), peel(f[2], through_try=False)
+                if (zr.k == "const" and zr.v == 0) or (zl.k == "const" and zl.v == 0):
+                    side = "end" if rel == "Eq" else "more"
+            if side == "end":
+                col.ok(rule_id, key, body.where(bb), "EOF on the end-of-data side of its controlling test (%s)" % rel)
+            elif side == "more":
+                col.bad(rule_id, key, body.where(bb),
+                        "EOF is returned on the side of its controlling test that says there IS more (done() false / again() true / "
+                        "count != 0 / not empty): the source reports the end of its data while data remains, and goes on when it has "
+                        "ended", {})
+            else:
+                col.silent(rule_id, key, body.where(bb), "controlling test is not an end-of-data test")
+
+
 # a body that raises an alarm as compiled is judged again on its work view (effects.view_fallback)
 rule_r2 = effects.view_fallback(rule_r2)
 rule_r5 = effects.view_fallback(rule_r5)
@@ -693,6 +843,7 @@ rule_r7 = effects.view_fallback(rule_r7)
 rule_r8 = effects.view_fallback(rule_r8)
 rule_r9 = effects.view_fallback(rule_r9)
 rule_r11 = effects.view_fallback(rule_r11)
+rule_r13 = effects.view_fallback(rule_r13)
 
 def run(ctx):
     facts = ctx.facts("default")
@@ -712,6 +863,10 @@ def run(ctx):
     ctx.floor("C16.R10", 1, "FileSource fast path (same rule as C14.R4)")
     rule_r9(facts, ctx, scope=lambda b: b.self_adt in rb)
     ctx.floor("C16.R9", 5, "EOF verdicts of the three finite sources (8 today)")
+    rule_r13(facts, ctx)
+    ctx.floor("C16.R13", 5, "EOF verdicts of the three finite sources behind an end-of-data test (8 today)")
+    rule_r12(facts, ctx)
+    ctx.floor("C16.R12", 1, "per-repetition state restored after again() (SigMFSource.left, VectorSource.pos today)")
     rule_r11(facts, ctx)
     ctx.floor("C16.R11", 2, "io::Read::read() sites with a staging buffer (FileSource, SigMFSource, TcpSource today)")
     rule_r7(facts, ctx)
